@@ -142,6 +142,12 @@ def snap(p):
         out["values"] = [enc_val(v) for v in p.values()]
     except Exception as e:
         out["values"] = {"err": err_kind(e)}
+    try:
+        out["getitem"] = [enc_val(p[k]) for k in (-1, 0, 1.0, True, 7)]     # float / bool spellings of a power
+    except Exception as e:
+        out["getitem"] = {"err": err_kind(e)}
+    out["unsorted_rev"] = list(p.terms(sort=False, reverse=True)) == items[::-1] and \
+        list(p.terms(sort="auto")) == list(p.terms())
     out["terms_sorted"] = [[int(k), enc_num(v)] for k, v in p.terms()] == out["terms"]
     out["terms_rev"] = [[int(k), enc_num(v)] for k, v in p.terms(sort=True, reverse=True)] == out["terms"][::-1]
     return out
@@ -232,7 +238,11 @@ def apply_op(op, get):
     if k == "ne":
         return "bool", get(op[1]) != get(op[2])
     if k == "eqs":
-        return "bool", get(op[1]) == to_py(op[2])
+        p, cv = get(op[1]), to_py(op[2])
+        e, n, r, rn = p == cv, p != cv, cv == p, cv != p
+        if n == (not e) and r == e and rn == n:
+            return "bool", e
+        return "bool", "p == c: %r, p != c: %r, c == p: %r, c != p: %r" % (e, n, r, rn)
     raise ValueError("bad step %r" % (op,))
 
 
@@ -412,6 +422,11 @@ def obj_problems(iv, mv):
             out.append("values(): impl=%s model=%s" % (iv["values"], mv["values"]))
     elif len(iv["values"]) != len(mv["values"]) or not all(num_same(a, b) for a, b in zip(iv["values"], mv["values"])):
         out.append("values(): impl=%s model=%s" % (iv["values"], mv["values"]))
+    if isinstance(iv["getitem"], dict) or len(iv["getitem"]) != len(mv["getitem"]) or \
+            not all(num_same(a, b) for a, b in zip(iv["getitem"], mv["getitem"])):
+        out.append("p[k] for k in (-1, 0, 1.0, True, 7): impl=%s model=%s" % (iv["getitem"], mv["getitem"]))
+    if not iv["unsorted_rev"]:
+        out.append("terms(sort=False, reverse=True) is not the reversed creation order / terms('auto') differs")
     if not iv["terms_sorted"] or not iv["terms_rev"]:
         out.append("terms() / terms(sort=True, reverse=True) are not the sorted items")
     if iv["keytypes"] not in ([], ["int"], ["bool"], ["bool", "int"]):
@@ -901,6 +916,34 @@ def gen_walk(rng, length, malformed=False):
     return {"entry": "zhist", "shape": "malformed" if malformed else "walk", "ops": ops}
 
 
+def gen_weird(rng):
+    """zeros that are not numerically zero / not hashable: compaction is against the instance's OWN zero"""
+    pairs = base_pairs(rng) or [[1, ["i", 2]]]
+    c = rng.choice(pairs)[1]
+    w = respell(rng, c)                                  # a "zero" equal to one of the coefficients
+    ops = [["ctor", "dict", pairs, rng.choice([None, ["i", 0], w]), "kw"]]
+    for _ in range(rng.randint(2, 5)):
+        r = rng.random()
+        src = rng.choice([i for i, o in enumerate(ops) if o[0] not in ("setzero", "setitem", "hash", "call", "eqs")])
+        if r < 0.3:
+            ops.append(["copy", src, None, "omit"])
+            ops.append(["setzero", len(ops) - 1, rng.choice([w, respell(rng, c), "[]", "{}", ["i", 0]])])
+        elif r < 0.45:
+            ops.append(["copy", src, rng.choice([w, "[]", "{}"]), rng.choice(["kw", "pos"])])
+        elif r < 0.6:
+            ops.append(["copy", src, None, "omit"])
+            ops.append(["setitem", len(ops) - 1, rkey(rng), rng.choice([respell(rng, c), ["i", 0], ["f", 0]])])
+        elif r < 0.7:
+            ops.append(["scal", rng.choice(["adds", "radds", "muls", "rmuls", "subs"]), src, respell(rng, c)])
+        elif r < 0.8:
+            ops.append(["ctor", "poly", src, rng.choice([w, None, "[]"]), "kw"])
+        elif r < 0.9:
+            ops.append(["call", src, rng.choice([["i", 0], ["f", 0], ["i", 2]]), rng.choice(["auto", True, False])])
+        else:
+            ops.append(["eqs", src, respell(rng, c)])
+    return {"entry": "zhist", "shape": "weird-zero", "ops": ops}
+
+
 def gen_pynum(rng):
     a = rnum(rng, 0.15)
     b = respell(rng, a) if rng.random() < 0.3 else rnum(rng, 0.15)
@@ -944,14 +987,16 @@ def fixed_cases():
 def generate(rng, tier, scale=1):
     quick = tier == "quick"
     out = fixed_cases() if scale == 1 else []
-    for _ in range((350 if quick else 6000) * scale):
+    for _ in range((300 if quick else 6000) * scale):
         out.append(gen_cross(rng))
-    for _ in range((250 if quick else 4000) * scale):
+    for _ in range((200 if quick else 4000) * scale):
         out.append(gen_ring(rng))
-    for _ in range((350 if quick else 6000) * scale):
+    for _ in range((300 if quick else 6000) * scale):
         out.append(gen_walk(rng, rng.randint(3, 12)))
     for _ in range((80 if quick else 1500) * scale):
         out.append(gen_walk(rng, rng.randint(3, 9), malformed=True))
+    for _ in range((120 if quick else 2000) * scale):
+        out.append(gen_weird(rng))
     for _ in range((400 if quick else 6000) * scale):
         out.append(gen_pynum(rng))
     return out
